@@ -5,6 +5,7 @@ import (
 	"fmt"
 	"math/rand"
 	"net"
+	"reflect"
 	"runtime"
 	"sort"
 	"strconv"
@@ -48,6 +49,11 @@ import (
 type capTransporter struct {
 	mu sync.Mutex
 	ev []string
+	// what a NewProxy for a name must carry: the message marshalled from the configuration the last
+	// reload gave for that name ([0]) — during overlapping operations also the one before ([1]).
+	// A NewProxy with any other content is recorded as X<name>.
+	expect  map[string][]*msg.NewProxy
+	relaxed bool
 	// gate (op race): the first message of kind gateKind is held in Send until release is closed
 	armed    bool
 	gateKind string
@@ -61,6 +67,9 @@ func (t *capTransporter) Send(m msg.Message) error {
 	switch x := m.(type) {
 	case *msg.NewProxy:
 		ev = "N" + strings.TrimPrefix(x.ProxyName, "p")
+		if !t.carriesConfigured(x) {
+			ev = "X" + strings.TrimPrefix(x.ProxyName, "p")
+		}
 	case *msg.CloseProxy:
 		ev = "C" + strings.TrimPrefix(x.ProxyName, "p")
 	}
@@ -78,6 +87,55 @@ func (t *capTransporter) Send(m msg.Message) error {
 	t.ev = append(t.ev, ev)
 	t.mu.Unlock()
 	return nil
+}
+
+func (t *capTransporter) carriesConfigured(x *msg.NewProxy) bool {
+	t.mu.Lock()
+	defer t.mu.Unlock()
+	exp, ok := t.expect[x.ProxyName]
+	if !ok {
+		return true
+	}
+	for i, e := range exp {
+		if (i == 0 || t.relaxed) && reflect.DeepEqual(e, x) {
+			return true
+		}
+	}
+	return false
+}
+
+// configured records what the reload that is about to run configures under each name (last entry wins)
+func (t *capTransporter) configured(tokens []string) {
+	t.mu.Lock()
+	defer t.mu.Unlock()
+	if t.expect == nil {
+		t.expect = map[string][]*msg.NewProxy{}
+	}
+	done := map[string]bool{}
+	for i := len(tokens) - 1; i >= 0; i-- {
+		f := strings.Split(tokens[i], ":")
+		name := "p" + f[0]
+		if done[name] {
+			continue
+		}
+		done[name] = true
+		m := &msg.NewProxy{}
+		buildProxy(name, atoi(f[1])).MarshalToMsg(m) // a fresh object, not the one the manager gets
+		old := t.expect[name]
+		if len(old) > 0 && reflect.DeepEqual(old[0], m) {
+			continue
+		}
+		if len(old) > 1 {
+			old = old[:1]
+		}
+		t.expect[name] = append([]*msg.NewProxy{m}, old...)
+	}
+}
+
+func (t *capTransporter) setRelaxed(b bool) {
+	t.mu.Lock()
+	defer t.mu.Unlock()
+	t.relaxed = b
 }
 
 func (t *capTransporter) arm(kind string) {
@@ -236,6 +294,9 @@ func evString(ev []string, ok bool) string {
 const nVariants = 17
 
 func variantFlags(v int) (h, r bool) {
+	if v >= cfvBase {
+		return cfvFlags(v - cfvBase)
+	}
 	switch v {
 	case 10, 11, 12:
 		return true, false
@@ -247,7 +308,19 @@ func variantFlags(v int) (h, r bool) {
 	return false, false
 }
 
+// buildProxy: variants 0..16 are hand-picked configurations, variants >= cfvBase are field vectors
+// (eng_client_fields.go).  Every configuration is Complete()d, as the loader does with every entry
+// of a configuration file (defaults such as transport.bandwidthLimitMode = "client" are filled in).
 func buildProxy(name string, v int) v1.ProxyConfigurer {
+	if v >= cfvBase {
+		return cfvBuild(name, v-cfvBase)
+	}
+	c := buildProxyLegacy(name, v)
+	c.Complete("")
+	return c
+}
+
+func buildProxyLegacy(name string, v int) v1.ProxyConfigurer {
 	base := func(t string) v1.ProxyBaseConfig {
 		b := v1.ProxyBaseConfig{Name: name, Type: t}
 		b.LocalIP = "127.0.0.1"
@@ -477,6 +550,7 @@ func clientExec(tok []string) string {
 		}
 		proxy.VerifSetTimings(hour, hour, hour)
 		s.tr.take()
+		s.tr.configured(tok[3:])
 		s.pm.UpdateAll(cfgs)
 		ok := settle()
 		for _, st := range s.pm.GetAllProxyStatus() {
@@ -738,6 +812,35 @@ func clientGen(rng *rand.Rand, n int, emit func(string)) {
 	adv := func() int { now += pick(rng, steps); return now }
 	type ent struct{ name, variant int }
 	var cur []ent
+	// configurations: hand-picked variants and field vectors (eng_client_fields.go)
+	randVariant := func() int {
+		if rng.Intn(2) == 0 {
+			return rng.Intn(nVariants)
+		}
+		return cfvBase + cfvRandom(rng, false)
+	}
+	plainVariant := func() int { // no health monitor, Run() does not fail
+		if rng.Intn(2) == 0 {
+			return rng.Intn(10)
+		}
+		return cfvBase + cfvRandom(rng, true)
+	}
+	// a different configuration for the same name: for a field vector mostly exactly ONE field
+	// changed, drawn over every field of the base configuration and of the type's own struct
+	otherVariant := func(v int, plain bool) int {
+		if v >= cfvBase && rng.Intn(5) != 0 {
+			return cfvBase + cfvChangeOne(rng, v-cfvBase, plain)
+		}
+		for {
+			w := randVariant()
+			if plain {
+				w = plainVariant()
+			}
+			if w != v {
+				return w
+			}
+		}
+	}
 	healthUpdates := 0
 	maxHealthUpdates := 16 + n/300 // each one costs the wrapper's 500 ms start-up sleep
 	nStopped := 0
@@ -750,7 +853,7 @@ func clientGen(rng *rand.Rand, n int, emit func(string)) {
 			for k := rng.Intn(3) + 1; k > 0; k-- {
 				switch rng.Intn(6) {
 				case 0: // add
-					next = append(next, ent{rng.Intn(5), rng.Intn(nVariants)})
+					next = append(next, ent{rng.Intn(5), randVariant()})
 				case 1: // remove
 					if len(next) > 0 {
 						i := rng.Intn(len(next))
@@ -758,7 +861,8 @@ func clientGen(rng *rand.Rand, n int, emit func(string)) {
 					}
 				case 2: // change a field
 					if len(next) > 0 {
-						next[rng.Intn(len(next))].variant = rng.Intn(nVariants)
+						i := rng.Intn(len(next))
+						next[i].variant = otherVariant(next[i].variant, false)
 					}
 				case 3: // reorder
 					rng.Shuffle(len(next), func(i, j int) { next[i], next[j] = next[j], next[i] })
@@ -766,7 +870,7 @@ func clientGen(rng *rand.Rand, n int, emit func(string)) {
 					if len(next) > 0 {
 						e := next[rng.Intn(len(next))]
 						if rng.Intn(2) == 0 {
-							e.variant = rng.Intn(nVariants)
+							e.variant = otherVariant(e.variant, false)
 						}
 						i := rng.Intn(len(next) + 1)
 						next = append(next[:i:i], append([]ent{e}, next[i:]...)...)
@@ -778,7 +882,7 @@ func clientGen(rng *rand.Rand, n int, emit func(string)) {
 			next = nil
 		default:
 			for k := 1 + rng.Intn(4); k > 0; k-- {
-				next = append(next, ent{rng.Intn(5), rng.Intn(nVariants)})
+				next = append(next, ent{rng.Intn(5), randVariant()})
 			}
 		}
 		return next
@@ -804,7 +908,7 @@ func clientGen(rng *rand.Rand, n int, emit func(string)) {
 			if healthUpdates >= maxHealthUpdates {
 				for i := range next {
 					if h, _ := variantFlags(next[i].variant); h && !isOld(next[i]) {
-						next[i].variant = rng.Intn(10)
+						next[i].variant = plainVariant()
 					}
 				}
 			} else {
@@ -870,7 +974,7 @@ func clientGen(rng *rand.Rand, n int, emit func(string)) {
 		next := append([]ent(nil), cur...)
 		for i := range next {
 			if next[i].name == name {
-				next[i].variant = (next[i].variant + 1 + rng.Intn(nVariants-1)) % nVariants
+				next[i].variant = otherVariant(next[i].variant, false)
 			}
 		}
 		return next
@@ -937,16 +1041,16 @@ func clientGen(rng *rand.Rand, n int, emit func(string)) {
 		case sc < 3 || len(cur) == 0:
 			// first registration: the reload adds (or replaces) x without health gate
 			next := without(x)
-			next = append(next, ent{x, rng.Intn(10)})
+			next = append(next, ent{x, plainVariant()})
 			if rng.Intn(3) == 0 {
-				next = append(next, ent{rng.Intn(5), rng.Intn(10)})
+				next = append(next, ent{rng.Intn(5), plainVariant()})
 			}
 			a := fmtUpd(next)
 			emit(fmt.Sprintf("race N%d ", x) + a + " / " + genB(x, true))
 		case sc < 6 || (sc < 8 && len(hs) == 0 && raceHealth <= 0):
 			// retry after a start error (30 s) / resend after the reply time-out (20 s)
 			if rng.Intn(3) != 0 {
-				fresh(rng.Intn(10))
+				fresh(plainVariant())
 			}
 			step := 20001
 			if rng.Intn(2) == 0 {
@@ -1045,6 +1149,44 @@ func clientGen(rng *rand.Rand, n int, emit func(string)) {
 		}
 		if rng.Intn(100) < 5 {
 			emitRace()
+			continue
+		}
+		if len(cur) > 0 && rng.Intn(100) < 9 {
+			// RELOAD DIFF OVER ALL FIELDS: one proxy is brought to status running, then a reload changes
+			// exactly one field of it (or none: the same values in a new object) and nothing else
+			k := rng.Intn(len(cur))
+			e := cur[k]
+			if e.variant < cfvBase {
+				// restart it as a field vector first
+				next := append([]ent(nil), cur...)
+				next[k].variant = plainVariant()
+				for next[k].variant < cfvBase {
+					next[k].variant = plainVariant()
+				}
+				emit(fmtUpd(next))
+				e = cur[k]
+				i++
+			}
+			if h, _ := variantFlags(variantOf(e.name)); h {
+				emit(fmt.Sprintf("hup %d %d", e.name, adv()))
+				i++
+			}
+			emit(fmt.Sprintf("resp %d %d ok", e.name, adv()))
+			next := append([]ent(nil), cur...)
+			if rng.Intn(6) != 0 {
+				for j := range next {
+					if next[j].name == e.name {
+						next[j].variant = otherVariant(variantOf(e.name), true)
+					}
+				}
+			}
+			emit(fmtUpd(next))
+			emit("status")
+			if rng.Intn(2) == 0 {
+				emit(fmt.Sprintf("resp %d %d ok", e.name, adv()))
+				emit(fmt.Sprintf("work %d", e.name))
+			}
+			i += 2
 			continue
 		}
 		switch r := rng.Intn(100); {
